@@ -396,7 +396,10 @@ def main():
                     for lst in (C.WIDE_E, C.WIDE_U8):
                         lst.extend(x for x in steer if x not in lst)
             if tier == "quick" or steer:
-                wide = run_plan(plan, "thorough", seed + 7919, os.path.join(wd, "wide"))
+                # quick tier with a changed source text: the quick density at the steered capacities (minutes);
+                # otherwise the thorough case space
+                wide_tier = "quick" if (tier == "quick" and not fp_ok and proofs_ok and corr_ok) else "thorough"
+                wide = run_plan(plan, wide_tier, seed + 7919, os.path.join(wd, "wide"))
                 for r in wide:
                     if r.get("ofail"):
                         found = (r, r["ofail"][0])
